@@ -124,7 +124,7 @@ def split_probs(rng, n):
 def gen_comparison(rng, col, other, backend, allow_tf, upper=None):
     """Custom comparison dict on column `col` + generator ground truth (`exact` per level)."""
     q = lambda c: f'"{c}"'  # noqa: E731
-    kind = rng.choice(["exact", "exact", "prefix", "never", "nonull", "multi"])
+    kind = rng.choice(["exact", "exact", "prefix", "never", "nonull", "multi", "asym"])
     levels = []
     truth = []
     if kind != "nonull":
@@ -152,13 +152,16 @@ def gen_comparison(rng, col, other, backend, allow_tf, upper=None):
         if kind == "never":
             levels.append({"sql_condition": f"{q(col + '_l')} = 'never_seen'", "label_for_charts": "never"})
             truth.append(None)
+        if kind == "asym":      # depends on which record is on the left: orientation matters
+            levels.append({"sql_condition": f"{q(col + '_l')} = '{DOMS[col][0]}'", "label_for_charts": "asym"})
+            truth.append(None)
     levels.append({"sql_condition": "ELSE", "label_for_charts": "else"})
     truth.append(None)
     nn = [lv for lv in levels if not lv.get("is_null_level")]
     ms, us = split_probs(rng, len(nn)), split_probs(rng, len(nn))
     for lv, m, u in zip(nn, ms, us):
         lv["m_probability"], lv["u_probability"] = m, u
-    return {"output_column_name": name, "comparison_levels": levels}, {"name": name, "exact": truth, "tfcol": tfcol,
+    return {"output_column_name": name, "comparison_levels": levels}, {"name": name, "exact": truth, "tfcol": tfcol, "asym_val": DOMS[col][0],
                                                                      "cols": [col, other] if kind == "multi" else [col]}
 
 
@@ -239,7 +242,7 @@ def make_linker(case):
                         probability_two_random_records_match=case["prior"],
                         max_iterations=case["max_iterations"], em_convergence=case["em_convergence"])
     tabs = frames(case)
-    return su.linker(tabs, s, case["backend"], aliases=["ta", "tb"][:len(tabs)] if len(tabs) > 1 else None)
+    return su.linker(tabs, s, case["backend"], aliases=["ta", "tb", "tc"][:len(tabs)] if len(tabs) > 1 else None)
 
 
 def pv(raw, read):
@@ -482,7 +485,9 @@ def oracle_session(case, rec):
     fails = []
     s = rec["flags"]
     # deactivation: comparisons sharing a column with the rule are neither trained nor changed
-    deact = [c["name"] for c in rec["before"]["cmps"] if set(c["cols"]) & set(rec["br_cols"])]
+    # SQL identifiers are case-insensitive on these engines: l.surname IS the column Surname
+    brl = {x.lower() for x in rec["br_cols"]}
+    deact = [c["name"] for c in rec["before"]["cmps"] if {x.lower() for x in c["cols"]} & brl]
     trained = [c["name"] for c in rec["hist"][0]["cmps"]]
     if trained != [c["name"] for c in rec["before"]["cmps"] if c["name"] not in deact]:
         fails.append(("deactivation", {"trained": trained, "should_be_deactivated": deact}))
